@@ -95,7 +95,7 @@ type rawServer struct {
 }
 
 func newRawServer() (*rawServer, error) {
-	ln, err := net.Listen("tcp", "127.0.0.1:0")
+	ln, err := netfx.ListenLoopback()
 	if err != nil {
 		return nil, err
 	}
